@@ -370,6 +370,20 @@ func C04(p *load.Prog, r *oblig.Run) {
 
 	// R04.r range pattern
 	rpat, rg, rcall, err := regexpUsedIn(p, nrs, "FindStringSubmatch")
+	rholder := nrs
+	if err != nil {
+		// the range match may live in a helper NewDateRangeWithString calls (splitDateRangeString)
+		for _, c := range su.Calls(nrs) {
+			h := c.Common().StaticCallee()
+			if h == nil || !p.IsRepoFunc(h) || len(h.Blocks) == 0 || h == parse {
+				continue
+			}
+			if pat2, g2, call2, err2 := regexpUsedIn(p, h, "FindStringSubmatch"); err2 == nil {
+				rpat, rg, rcall, err, rholder = pat2, g2, call2, nil, h
+				break
+			}
+		}
+	}
 	if err != nil {
 		r.Add("R04.r", "range pattern", "-", "pattern used by NewDateRangeWithString").Unknown(err.Error())
 		return
@@ -388,6 +402,16 @@ func C04(p *load.Prog, r *oblig.Run) {
 			o.OK("the range pattern accepts runs of spaces itself")
 		default:
 			arg := su.Strip(rcall.Call.Args[1])
+			if prm, isPrm := arg.(*ssa.Parameter); isPrm && rholder != nrs {
+				// the helper matches its parameter: what does NewDateRangeWithString hand it?
+				for _, hc := range su.CallsTo(nrs, rholder) {
+					for i, hp := range rholder.Params {
+						if hp == prm && i < len(hc.Call.Args) {
+							arg = su.Strip(hc.Call.Args[i])
+						}
+					}
+				}
+			}
 			c, isCall := arg.(*ssa.Call)
 			clean := p.Func(load.PkgRoot, "CleanSpace")
 			if isCall && clean != nil && c.Call.StaticCallee() == clean {
@@ -400,6 +424,9 @@ func C04(p *load.Prog, r *oblig.Run) {
 	rre := regexp.MustCompile(rpat)
 	// groups whose captured text is parsed as dates: constant indices of the submatch passed to parseDateParts
 	dgs := groupIndicesPassedTo(nrs, rcall, parse)
+	if rholder != nrs {
+		dgs = groupIndicesReturnedTo(nrs, rholder, rcall, parse)
+	}
 	ng, _ := relang.NumGroups(rpat)
 	if len(dgs) != 2 || ng != 4 {
 		r.Add("R04.r", "range groups", rpos, "groups of the range pattern").Unknown(fmt.Sprintf("expected 4 groups with two date groups, found %d groups, date groups %v", ng, dgs))
@@ -988,4 +1015,66 @@ func hasBareSpace(pat string) (bool, error) {
 		return false
 	}
 	return walk(re, false), nil
+}
+
+// groupIndicesReturnedTo: the submatch lives in helper h, which returns groups of it; caller passes those results to
+// callee. Returns the constant group indexes that reach callee's first argument this way.
+func groupIndicesReturnedTo(caller, h *ssa.Function, submatch *ssa.Call, callee *ssa.Function) []int {
+	// result index -> group indexes returned at that position
+	byResult := map[int][]int{}
+	for _, b := range h.Blocks {
+		ret, ok := b.Instrs[len(b.Instrs)-1].(*ssa.Return)
+		if !ok {
+			continue
+		}
+		for i, res := range ret.Results {
+			var collect func(v ssa.Value, d int)
+			collect = func(v ssa.Value, d int) {
+				if d > 4 {
+					return
+				}
+				if ph, isPhi := v.(*ssa.Phi); isPhi {
+					for _, e := range ph.Edges {
+						collect(e, d+1)
+					}
+					return
+				}
+				ld, ok := v.(*ssa.UnOp)
+				if !ok {
+					return
+				}
+				ia, ok := ld.X.(*ssa.IndexAddr)
+				if !ok || ia.X != ssa.Value(submatch) {
+					return
+				}
+				if iv, ok := su.ConstInt(ia.Index); ok {
+					byResult[i] = append(byResult[i], int(iv))
+				}
+			}
+			collect(res, 0)
+		}
+	}
+	var out []int
+	for _, hc := range su.CallsTo(caller, h) {
+		for _, ref := range *hc.Referrers() {
+			ex, ok := ref.(*ssa.Extract)
+			if !ok {
+				continue
+			}
+			for _, r2 := range *ex.Referrers() {
+				c, ok := r2.(*ssa.Call)
+				if ok && c.Call.StaticCallee() == callee && len(c.Call.Args) > 0 && c.Call.Args[0] == ssa.Value(ex) {
+					out = append(out, byResult[ex.Index]...)
+				}
+			}
+		}
+	}
+	sort.Ints(out)
+	var d []int
+	for i, v := range out {
+		if i == 0 || v != out[i-1] {
+			d = append(d, v)
+		}
+	}
+	return d
 }
